@@ -3456,7 +3456,17 @@ impl<'store> QueryIter<'store> {
                     ));
                 }
             }
-            Some(&Constraint::Union(..)) => todo!("UNION not implemented yet"),
+            Some(c @ &Constraint::Union(..)) => {
+                //not implemented (yet) for TEXT queries: the same error as for a UNION further on
+                //in the query, rather than a panic
+                return Err(StamError::QuerySyntaxError(
+                    format!(
+                    "Constraint {} (primary) is not implemented for queries over TEXT selections",
+                    c.keyword()
+                ),
+                    "",
+                ));
+            }
             Some(&Constraint::Limit { begin, end }) => {
                 Box::new(store.annotations().textselections().limit(begin, end))
             }
